@@ -610,6 +610,16 @@ def _scenarios():
     sc["each-in-skipto"] = (lambda r, c: pp.SkipTo(X(r, c) & W(N)), "! ab 12", [], None, 0, 0)
     sc["each-in-skipto-include"] = (lambda r, c: pp.SkipTo(X(r, c) & W(N), include=True), "! 12 ab", [(5, ["ab"])], None, 0, 1)
     sc["each-in-stop-on"] = (lambda r, c: pp.OneOrMore(W(AN), stop_on=(X(r, c, pp.Keyword("end")) & pp.Literal("!"))), "a b end !", [], None, 0, 0)
+    # the call_during_try flag belongs to the action list: set_parse_action(fn) REPLACES the actions and, without
+    # call_during_try=True, the element must no longer fire in trial passes (add_parse_action, by contrast, keeps an earlier True)
+    def Xset(rec, cdt, base=None):
+        e = (base if base is not None else W(A)).copy()
+        e.add_parse_action(lambda t: None, call_during_try=True)
+        return e.set_parse_action(rec, call_during_try=cdt)
+    sc["set-after-calltry-or-loses"] = (lambda r, c: Xset(r, c) ^ W(AN), "abc1", [], None, 0, 0)
+    sc["set-after-calltry-or-wins"] = (lambda r, c: Xset(r, c) ^ W(N), "abc", [(0, ["abc"])], None, 0, 1)
+    sc["set-after-calltry-skipto"] = (lambda r, c: pp.SkipTo(Xset(r, c)), "12 ab", [], None, 0, 0)
+    sc["set-after-calltry-stop-on"] = (lambda r, c: pp.OneOrMore(W(AN), stop_on=Xset(r, c, pp.Keyword("end"))), "a b end", [], None, 0, 0)
     sc["each-opt-in-or-loses"] = (lambda r, c: (pp.Opt(X(r, c)) & W(N)) ^ (W(A) + W(N) + "!"), "ab 12 !", [], None, 0, 0)
     return sc
 
